@@ -188,9 +188,18 @@ impl Obj {
     /// further closed-form observables: ln_pdf of the continuous laws
     pub fn extra(&self, x: f64) -> Vec<f64> {
         match self {
-            // (Normal::cdf is left out: it is not among the observables the property names, and
-            // erf(NaN) recurses without end, so cdf of a sigma = 0 normal at x = mu aborts the process)
-            Obj::Normal(d) => vec![d.ln_pdf(x)],
+            // Normal::cdf (the one inherent observable in the crate) is compared too, but only where
+            // its erf argument cannot be NaN on a correct object: erf(NaN) recurses without end, so
+            // cdf of a sigma = 0 normal at x = mu aborts the process. The guard reads the object's
+            // own mean and variance (finite centre, 0 < variance < inf, finite x != centre).
+            Obj::Normal(d) => {
+                let (m, s2) = (d.mean(), d.var());
+                if m.is_finite() && s2 > 0.0 && s2.is_finite() && x.is_finite() && x != m {
+                    vec![d.ln_pdf(x), d.cdf(x)]
+                } else {
+                    vec![d.ln_pdf(x)]
+                }
+            }
             Obj::Gamma(d) => vec![d.ln_pdf(x)],
             Obj::Beta(d) => vec![d.ln_pdf(x)],
             Obj::ChiSquared(d) => vec![d.ln_pdf(x)],
